@@ -570,6 +570,9 @@ func (c *HTTPClient) Membership(key []byte, version *uint64) (*balloon.Membershi
 	if err != nil {
 		return nil, err
 	}
+	if result == nil {
+		return nil, errors.New("empty membership answer")
+	}
 
 	proof := protocol.ToBalloonProof(result, c.hasherF)
 	return proof, nil
@@ -599,6 +602,9 @@ func (c *HTTPClient) MembershipDigest(keyDigest hashing.Digest, version *uint64)
 	err = json.Unmarshal(body, &result)
 	if err != nil {
 		return nil, err
+	}
+	if result == nil {
+		return nil, errors.New("empty membership answer")
 	}
 
 	proof := protocol.ToBalloonProof(result, c.hasherF)
@@ -673,6 +679,9 @@ func (c *HTTPClient) GetSnapshot(version uint64) (*protocol.Snapshot, error) {
 		return nil, err
 	}
 
+	if ss.Snapshot == nil {
+		return nil, errors.New("snapshot store answer carries no snapshot")
+	}
 	return ss.Snapshot, nil
 }
 
@@ -690,7 +699,12 @@ func (c *HTTPClient) Incremental(start, end uint64) (*balloon.IncrementalProof, 
 	}
 
 	var response *protocol.IncrementalResponse
-	_ = json.Unmarshal(body, &response)
+	if err := json.Unmarshal(body, &response); err != nil {
+		return nil, err
+	}
+	if response == nil {
+		return nil, errors.New("empty incremental answer")
+	}
 
 	proof := protocol.ToIncrementalProof(response, c.hasherF)
 	return proof, nil
